@@ -8,6 +8,7 @@ import (
 	"net/url"
 	"os"
 	"regexp"
+	"strconv"
 	"strings"
 	"testing"
 
@@ -15,11 +16,11 @@ import (
 
 	"servitor/jtp"
 	"servitor/pub"
+	"servitor/ui"
 	"servitor/zverif/vgen"
 	"servitor/zverif/vrep"
 	"servitor/zverif/vsim"
 	"servitor/zverif/vui"
-	"servitor/ui"
 )
 
 var sim *vsim.Sim
@@ -60,7 +61,7 @@ func judge(conn vsim.Conn) error {
 	host := string(m[2])
 	auth := sim.Authority(conn.Host)
 	port := auth[strings.LastIndex(auth, ":"):]
-	if !(strings.EqualFold(host, auth) || strings.EqualFold(host, "localhost"+port) || strings.EqualFold(host, auth+".") ) {
+	if !(strings.EqualFold(host, auth) || strings.EqualFold(host, "localhost"+port) || strings.EqualFold(host, auth+".")) {
 		return fmt.Errorf("Host header %q does not designate the listener %s that was contacted", host, auth)
 	}
 	if a := string(m[3]); a != accept1 && a != accept2 {
@@ -104,7 +105,7 @@ func check(c Case) vrep.Result {
 	sim.ResetLog()
 	canary := sim.CanaryConnections()
 	hostile := false
-	expand := func(s string) string { return sim.Expand(s, -1, prefix) }
+	expand := func(s string) string { return sim.Expand(expandPort(s), -1, prefix) }
 	switch c.Kind {
 	case "url":
 		text := expand(c.urlText())
@@ -161,6 +162,18 @@ func check(c Case) vrep.Result {
 			return vrep.Result{Classes: classes, Err: fmt.Errorf("a %s URL led to a request: %q\ncase input: %q", c.Scheme, log[len(log)-1].Request, c.describe(expand))}
 		}
 	}
+	// a number that is no port (> 65535) names no endpoint: nothing may be sent anywhere on its behalf, least of all
+	// to the port it would wrap around to
+	if strings.Contains(c.Authority+c.Domain, "%HW") {
+		classes = append(classes, "port>65535")
+		allowed := 0
+		if c.Kind == "planted" || c.Kind == "location" {
+			allowed = 1
+		}
+		if len(log) > allowed {
+			return vrep.Result{Classes: classes, Err: fmt.Errorf("a URL whose port is not a port led to a request: %q\ncase input: %q", log[len(log)-1].Request, c.describe(expand))}
+		}
+	}
 	if n := sim.CanaryConnections(); n != canary {
 		return vrep.Result{Classes: classes, Err: fmt.Errorf("a plaintext connection reached the canary listener\ncase input: %q", c.describe(expand))}
 	}
@@ -207,17 +220,28 @@ var queries = []pe{{"", "-"}, {"?x=1", "-"}, {"?", ""}, {"?x=a b", ""}, {"?x=a%2
 var fragments = []string{"", "", "#f", "#", "#a b", "#\r\nX: y", "#%0d%0a"}
 var schemes = []string{"https", "https", "https", "https", "https", "https", "https", "https", "https", "https", "https", "https", "https", "https", "https", "https", "HTTPS", "Https", "http", "", "gemini", "ftp", "https+x", "file", "javascript"}
 var userinfos = []string{"", "", "", "", "", "", "", "", "user:pw@", "a%0d%0ab@", "@", "u@", ":@", "a b@"}
-var authorities = []string{"%H0%", "%H0%", "%H1%", "%H0%", "%H0%", "%H1%", "%H0%", "%H0%", "%H1%", "%H0%", "%H0%", "%H1%", "%H0%", "%H0%", "%H1%", "%H0%", "%H1%", "%CANARY%", "%CLOSED%", "%H0%.", "LOCALHOST%PORT0%", "%H0%:", "%H0% ", "%H0%\r\nX-A: b", "[::1]%PORT0%", "", "%H0%:99999", "%H0%:0x50", "%H0%%20", "%H0%%0d%0aX-A:%20b"}
+var authorities = []string{"%H0%", "%H0%", "%H1%", "%H0%", "%H0%", "%H1%", "%H0%", "%H0%", "%H1%", "%H0%", "%H0%", "%H1%", "%H0%", "%H0%", "%H1%", "%H0%", "%H1%", "%CANARY%", "%CLOSED%", "%H0%.", "LOCALHOST%PORT0%", "%H0%:", "%H0% ", "%H0%\r\nX-A: b", "[::1]%PORT0%", "", "%H0%:99999", "%H0%:0x50", "%HW16%", "%HW17%", "%HW32%", "%HW33%", "%HW32%", "%H0%%20", "%H0%%0d%0aX-A:%20b"}
 
+// expandPort fills in the port of listener 0 - also as numbers that are no port at all but wrap around to it when
+// truncated to 16 bits (%HW16%) or in a 32-bit parser (%HW32%, %HW33%).
 func expandPort(s string) string {
 	a := sim.Authority(0)
-	return strings.ReplaceAll(s, "%PORT0%", a[strings.LastIndex(a, ":"):])
+	colon := strings.LastIndex(a, ":")
+	s = strings.ReplaceAll(s, "%PORT0%", a[colon:])
+	if strings.Contains(s, "%HW") {
+		port, _ := strconv.ParseUint(a[colon+1:], 10, 64)
+		s = strings.ReplaceAll(s, "%HW16%", fmt.Sprintf("%s:%d", a[:colon], port+1<<16))
+		s = strings.ReplaceAll(s, "%HW17%", fmt.Sprintf("%s:%d", a[:colon], port+3<<16))
+		s = strings.ReplaceAll(s, "%HW32%", fmt.Sprintf("%s:%d", a[:colon], port+1<<32))
+		s = strings.ReplaceAll(s, "%HW33%", fmt.Sprintf("%s:%d", a[:colon], port+10<<32))
+	}
+	return s
 }
 
 func genURLParts(t *rapid.T, c *Case, planted bool) {
 	c.Scheme = rapid.SampledFrom(schemes).Draw(t, "scheme")
 	c.Userinfo = rapid.SampledFrom(userinfos).Draw(t, "userinfo")
-	c.Authority = expandPort(rapid.SampledFrom(authorities).Draw(t, "authority"))
+	c.Authority = rapid.SampledFrom(authorities).Draw(t, "authority")
 	p := rapid.SampledFrom(paths).Draw(t, "path")
 	q := rapid.SampledFrom(queries).Draw(t, "query")
 	c.Path, c.Query = p.text, q.text
@@ -235,7 +259,7 @@ func genURLParts(t *rapid.T, c *Case, planted bool) {
 
 var accts = []string{"alice", "a b", "a%0d%0ab", "a\r\nX: y", "a&resource=evil", "a#b", "ü", "", "a@b", "acct:alice", "a?x=1", "a=b", "a+b", "%", "a\x00b"}
 var domains = []string{"%H0%", "%H0%", "%H0%", "%H0%", "%H0%", "%H0%", "%H0%", "%H0%", "%H0%/evil?x=", "%H0%\r\nX-Injected: 1", "%H0%#f", "%H0%?x", "user@%H0%", "%CANARY%", "%CLOSED%", "[::1]%PORT0%", "[::1%25\r\nX-Injected: 1]%PORT0%",
-	"%H0% ", " %H0%", "%H0%:", "", "%H0%@%H1%", "%H0%\\@x", "%H0%%0d%0aX-A:%20b", "LOCALHOST%PORT0%", "%H0%\nX: y", "127.0.0.1\r\nX: y%PORT0%"}
+	"%H0% ", " %H0%", "%H0%:", "", "%H0%@%H1%", "%H0%\\@x", "%H0%%0d%0aX-A:%20b", "LOCALHOST%PORT0%", "%HW16%", "%HW32%", "%H0%\nX: y", "127.0.0.1\r\nX: y%PORT0%"}
 
 func gen(t *rapid.T) Case {
 	c := Case{Kind: rapid.SampledFrom([]string{"url", "url", "handle", "planted", "planted", "location"}).Draw(t, "kind")}
@@ -243,7 +267,7 @@ func gen(t *rapid.T) Case {
 	switch c.Kind {
 	case "handle":
 		c.Acct = rapid.SampledFrom(accts).Draw(t, "acct")
-		c.Domain = expandPort(rapid.SampledFrom(domains).Draw(t, "domain"))
+		c.Domain = rapid.SampledFrom(domains).Draw(t, "domain")
 	case "planted":
 		c.Field = rapid.SampledFrom([]string{"inReplyTo", "attributedTo", "audience", "replies", "collection-first", "items", "id"}).Draw(t, "field")
 		genURLParts(t, &c, true)
@@ -253,7 +277,7 @@ func gen(t *rapid.T) Case {
 	return c
 }
 
-func TestProp(t *testing.T)   { vrep.Run(t, "Prop", true, gen, check) }
+func TestProp(t *testing.T) { vrep.Run(t, "Prop", true, gen, check) }
 func TestReplay(t *testing.T) {
 	switch vrep.ReplayCheckName() {
 	case "Browse":
